@@ -296,7 +296,17 @@ class Interp:
             if isinstance(c.node, ast.Lambda):
                 return self.eval(c.node.body, env)
             if any(isinstance(n, (ast.Yield, ast.YieldFrom)) for n in _walk_no_nested(c.node)):
-                raise Unsupported('generator function %s' % c.qualname)
+                # generator function: evaluated EAGERLY -- the body runs to its end now and the yielded values are handed
+                # over as an iterator.  Same values in the same order as lazy evaluation whenever the body has no side
+                # effect the consumer could observe between two yields (recorded as an assumption of the proof).
+                self.st.assumptions.add('generator %s evaluated eagerly (no observable side effects between yields)' % c.qualname)
+                ys = []
+                env.vars['__yields__'] = ys
+                try:
+                    self.exec_block(c.node.body, env)
+                except ReturnEx:
+                    pass
+                return self.models.IterV(self.st.alloc('clist', ys))
             rv = None
             try:
                 self.exec_block(c.node.body, env)
@@ -913,6 +923,25 @@ class Interp:
             if mn != name:
                 name = mn
         return self.lookup(name, env)
+
+    def _yield_sink(self, env):
+        e = env
+        while e is not None:
+            if '__yields__' in e.vars:
+                return e.vars['__yields__']
+            e = e.parent
+        raise Unsupported('yield outside a generator function')
+
+    def ev_Yield(self, n, env):
+        self._yield_sink(env).append(self.eval(n.value, env) if n.value is not None else None)
+        return None
+
+    def ev_YieldFrom(self, n, env):
+        items = self.models.concrete_iter(self, self.eval(n.value, env))
+        if items is None:
+            raise Unsupported('yield from a sequence of symbolic length')
+        self._yield_sink(env).extend(items)
+        return None
 
     def ev_Lambda(self, n, env):
         return self.make_closure(n, env)
